@@ -240,7 +240,9 @@ GRID_INDEXING = [
     ("getitem_int_list_grid_dim", lambda a: a[..., [1, 0]]),
     ("isel_indexers_kw_grid_dim", lambda a: a.isel(indexers={_gdim(a): [1, 0]})),
     ("isel_positional_dict_grid_dim", lambda a: a.isel({_gdim(a): [1, 0]})),
-    ("isel_mixed_grid_and_time", lambda a: a.isel(**{"time": 0, _gdim(a): [1, 0]})),
+    # keyword isel on a grid dimension is uxarray's own (inclusive) grid slicing: only for faces does it select exactly the
+    # given elements, so the comparison with plain xarray is made for face-centred arrays only (others: both sides raise -> skipped)
+    ("isel_mixed_grid_and_time", lambda a: a.isel(**{"time": 0, "n_face": [1, 0]})),
     ("head_grid_dim", lambda a: a.head(**{_gdim(a): 2})),
     ("sel_grid_dim", lambda a: a.sel(**{_gdim(a): [0, 1]})),
     ("loc_grid_dim", lambda a: a.loc[{_gdim(a): [0, 1]}]),
